@@ -240,8 +240,9 @@ class Batch:
             "replay_reproduced_full_trace": ok0,
             "replay_confirmed_in_fresh_interpreter": confirmed,
         }
-        os.makedirs(os.path.join(VERIF, "replays"), exist_ok=True)
-        path = os.path.join(VERIF, "replays", f"{self.prop}-{res['rseed']}.json")
+        rdir = os.environ.get("VERIF_REPLAY_DIR", os.path.join(VERIF, "replays"))
+        os.makedirs(rdir, exist_ok=True)
+        path = os.path.join(rdir, f"{self.prop}-{res['rseed']}.json")
         with open(path, "w") as f:
             json.dump(rep, f, indent=1, default=str)
         rep["path"] = path
@@ -408,8 +409,9 @@ def execute(plan: dict[str, Any], prop: str, tier: str, verif_seed: int) -> int:
         "wall_s": round(wall, 2),
         "violations": len(viol_unknown),
     }
-    os.makedirs(os.path.join(VERIF, "evidence"), exist_ok=True)
-    with open(os.path.join(VERIF, "evidence", f"{prop}.json"), "w") as f:
+    edir = os.environ.get("VERIF_EVIDENCE_DIR", os.path.join(VERIF, "evidence"))
+    os.makedirs(edir, exist_ok=True)
+    with open(os.path.join(edir, f"{prop}.json"), "w") as f:
         json.dump(ev, f, indent=1, default=str)
     zp = ev["coverage"]["zero_probes"]
     print(
